@@ -78,6 +78,7 @@ type Model struct {
 	Calls       []Call
 	mu          sync.Mutex // guards Calls and the counters (replicas are used from several goroutines)
 	PutOK       int        // uploads that completed with matching content
+	LosePut     bool       // uploads are acknowledged but the object is not held afterwards (evicting / just-rotated store)
 	// ConsumedBad counts uploads whose buffer failed or mismatched (nothing stored).
 	ConsumedBad int
 	// BufferKind selects the kind of buffer Get returns for a present object:
@@ -271,7 +272,9 @@ func (m *Model) Put(ctx context.Context, d digest.Digest, b buffer.Buffer) error
 		return status.Errorf(codes.InvalidArgument, "%s: uploaded content does not match the digest", m.Name)
 	}
 	m.mu.Lock()
-	m.Present[i] = true
+	if !m.LosePut {
+		m.Present[i] = true
+	}
 	m.PutIdx = append(m.PutIdx, i)
 	m.PutOK++
 	m.mu.Unlock()
